@@ -692,3 +692,299 @@ def _vacuous_guards(ctx, rule):
 
 extra('C05', 'R05.7', 'no guard tests the truthiness of a collection that holds one element per side (never empty): "does any side change anything" is asked with any()', 1)(_vacuous_guards)
 extra('C03', 'R03.24', 'no guard tests the truthiness of a collection that holds one element per side (never empty): "does any side change anything" is asked with any()', 1)(_vacuous_guards)
+
+
+# ------------------------------------------------------------------------------------------------ mapping differs: the three key classes
+def _mapping_differs_cover_key_classes(ctx, rule):
+    repo = ctx.repo
+    n = 0
+    for fid, fn in sorted(repo.functions.items()):
+        if not fid.startswith('nbdime.diffing.'):
+            continue
+        if not any(isinstance(c.func, ast.Name) and c.func.id == 'MappingDiffBuilder' for c in calls_in(fn, nested=False)):
+            continue
+        ps = [a.arg for a in fn.args.args[:2]]
+        if len(ps) < 2:
+            continue
+        keysets = {}
+        for st in walk_no_nested(fn):
+            if isinstance(st, ast.Assign) and isinstance(st.targets[0], ast.Name) and isinstance(st.value, ast.Call) and dotted(st.value.func) == 'set' and st.value.args:
+                inner = st.value.args[0]
+                root = inner.func.value if isinstance(inner, ast.Call) and isinstance(inner.func, ast.Attribute) and inner.func.attr == 'keys' else inner
+                if isinstance(root, ast.Name) and root.id in ps:
+                    keysets[st.targets[0].id] = root.id
+        if set(keysets.values()) != set(ps):
+            continue        # not the set-algebra shape: not judged
+        n += 1
+        ka = next(k for k, v in keysets.items() if v == ps[0])
+        kb = next(k for k, v in keysets.items() if v == ps[1])
+        found = {}
+        for lp in walk_no_nested(fn):
+            if not isinstance(lp, ast.For):
+                continue
+            for e in ast.walk(lp.iter):
+                if isinstance(e, ast.BinOp) and isinstance(e.left, ast.Name) and isinstance(e.right, ast.Name):
+                    pair = (e.left.id, e.right.id)
+                    ops = {c.func.attr for c in calls_in(lp) if isinstance(c.func, ast.Attribute) and c.func.attr in ('add', 'remove', 'patch', 'replace', 'append')}
+                    if isinstance(e.op, ast.Sub) and pair == (ka, kb):
+                        found['only in %s' % ps[0]] = ('remove' in ops, lp)
+                    elif isinstance(e.op, ast.Sub) and pair == (kb, ka):
+                        found['only in %s' % ps[1]] = ('add' in ops, lp)
+                    elif isinstance(e.op, ast.BitAnd) and set(pair) == {ka, kb}:
+                        found['in both'] = (True, lp)
+        for cls, opname in (('only in %s' % ps[0], 'remove'), ('in both', 'patch/replace'), ('only in %s' % ps[1], 'add')):
+            ok = cls in found and found[cls][0]
+            ctx.inst(rule, fid, 'keys %s -> %s' % (cls, opname), ok,
+                     'handled' if ok else
+                     'no loop over the keys %s emits %s entries: a mapping that gains or loses a key (an attachment re-exported under the same name with another MIME type; '
+                     'a bundle that gains a rendition) produces an EMPTY diff although the two notebooks differ' % (cls, opname), found.get(cls, (None, fn))[1])
+    if n < 3:
+        raise AnalysisError('fewer than 3 mapping differs with the key-set shape found (diff_dicts, diff_attachments, diff_mime_bundle expected)')
+
+
+extra('C01', 'R01.13', 'every mapping differ (dicts, attachments, mime bundles) handles all three key classes: only in a -> remove, in both -> recurse/replace, only in b -> add', 9)(_mapping_differs_cover_key_classes)
+extra('C02', 'R02.14', 'every mapping differ (dicts, attachments, mime bundles) handles all three key classes: only in a -> remove, in both -> recurse/replace, only in b -> add', 9)(_mapping_differs_cover_key_classes)
+
+
+# ------------------------------------------------------------------------------------------------ nbpatch writes what it computed
+@extra('C01', 'R01.14', 'nbpatch -o: once an output file is named, every way to finish successfully passes through the write of the patched notebook to that file', 1)
+def patch_output_always_written(ctx, rule):
+    from ..cfg import CFG
+    repo = ctx.repo
+    fid = 'nbdime.nbpatchapp:main_patch'
+    fn = repo.func(fid)
+    g = CFG(fn)
+    outvar = None
+    for st in walk_no_nested(fn):
+        if isinstance(st, ast.Assign) and isinstance(st.value, ast.Attribute) and st.value.attr == 'output' and isinstance(st.targets[0], ast.Name):
+            outvar = st.targets[0].id
+    if outvar is None:
+        raise AnalysisError('main_patch: local holding args.output not found')
+    writes = [repo.stmt_of(c) for c in calls_in(fn, nested=False) if isinstance(c.func, ast.Attribute) and c.func.attr in ('write', 'dump') and
+              any(isinstance(a, ast.Name) and a.id == outvar for a in c.args)]
+    tests = [s for s in g.stmts() if isinstance(s, ast.If) and isinstance(s.test, ast.Name) and s.test.id == outvar]
+    if not writes or not tests:
+        raise AnalysisError('main_patch: `if <output>: nbformat.write(<result>, <output>)` not found')
+    start = g.branch(tests[0], True)
+    # successful exits = returns of 0 / falling off the end; raising paths and non-zero returns are failures
+    bad = []
+    reach = g.reachable(start, removed=writes)
+    for n in reach:
+        if isinstance(n, ast.Return) and (n.value is None or const_val(n.value) in (0, None, False)):
+            bad.append(n)
+    ok = not bad
+    ctx.inst(rule, fid, 'if %s: ... %s' % (outvar, repo.norm(writes[0])), ok,
+             'every successful exit with an output file passes through the write' if ok else
+             '`%s` is reached with an output file named but without writing it: nbpatch exits 0 and the file keeps whatever it held before '
+             '(an old notebook), so diff-then-patch through files does not rebuild the target' % repo.norm(bad[0]), bad[0] if bad else tests[0])
+
+
+# ------------------------------------------------------------------------------------------------ what may be declared atomic
+def _atomic_only_non_containers(ctx, rule):
+    repo = ctx.repo
+    fid = 'nbdime.diffing.config:DiffConfig.is_atomic'
+    fn = repo.func(fid)
+    xparam = fn.args.args[1].arg
+    n = 0
+    # how are atomic values compared?  (diff_dicts: the arm taken when the differ table is not consulted)
+    dd = repo.func('nbdime.diffing.generic:diff_dicts')
+    cmp_names = {dotted(c.func) for c in calls_in(dd, nested=False) if dotted(c.func) in ('compare_strict', 'strict_equal')}
+    deep_compare = cmp_names == {'strict_equal'}
+    for r in walk_no_nested(fn):
+        if not isinstance(r, ast.Return):
+            continue
+        n += 1
+        v = r.value
+        if deep_compare:
+            ctx.inst(rule, fid, repo.norm(r), True, 'atomic values are compared with the deep type-strict equality, so any value may be atomic', r)
+            continue
+        table = isinstance(v, ast.Subscript) and isinstance(v.value, ast.Attribute) and 'atomic' in v.value.attr
+        fallback = isinstance(v, ast.UnaryOp) and isinstance(v.op, ast.Not) and isinstance(v.operand, ast.Call) and dotted(v.operand.func) == 'isinstance' and \
+            dotted(v.operand.args[0]) == xparam and {ast.unparse(e) for e in getattr(v.operand.args[1], 'elts', [v.operand.args[1]])} >= {'list', 'dict'}
+        false_ = const_val(v) is False
+        ok = table or fallback or false_
+        ctx.inst(rule, fid, repo.norm(r), ok,
+                 ('explicit per-path table' if table else 'atomic exactly when the value is not a str/list/dict' if fallback else 'never atomic') if ok else
+                 'this return can declare a list or dict atomic on a condition that is not the per-path table: atomic values are compared by compare_strict, which is type-strict '
+                 'only at the top level, so below that point {"v": 1} vs {"v": true} or [1, 2] vs [1.0, 2] produce NO diff entry and patch(a, diff) != b', r)
+    if n < 2:
+        raise AnalysisError('DiffConfig.is_atomic: expected the table lookup and the isinstance fallback')
+
+
+extra('C02', 'R02.15', 'only the per-path table or "not a str/list/dict" can make a value atomic (atomic values are compared shallowly)', 2)(_atomic_only_non_containers)
+extra('C01', 'R01.15', 'only the per-path table or "not a str/list/dict" can make a value atomic (atomic values are compared shallowly)', 2)(_atomic_only_non_containers)
+
+
+# ------------------------------------------------------------------------------------------------ a use-* strategy never decides WHETHER to merge
+@extra('C10', 'R10.8', 'in the generic mergers a test of a strategy variable against use-* values never chooses between merging the parts recursively and treating the whole value '
+       'as one conflict (use-X must equal "merge, then resolve every open conflict to X")', 1)
+def strategy_never_gates_recursion(ctx, rule):
+    repo = ctx.repo
+    MG = 'nbdime.merging.generic'
+    REC = {'_merge', '_merge_lists', '_merge_dicts', '_merge_strings', '_merge_concurrent_inserts'}
+    n = 0
+    for fid, fn in sorted(repo.functions.items()):
+        if not fid.startswith(MG + ':'):
+            continue
+        for node in walk_no_nested(fn):
+            if not isinstance(node, ast.If):
+                continue
+            consts = [c.value for c in ast.walk(node.test) if isinstance(c, ast.Constant) and isinstance(c.value, str)]
+            strat = [x.id for x in ast.walk(node.test) if isinstance(x, ast.Name) and 'strategy' in x.id]
+            if not strat or not any(c.startswith('use-') for c in consts):
+                continue
+            n += 1
+            def recurses(block):
+                return any(isinstance(c.func, ast.Name) and c.func.id in REC for st in block for c in calls_in(st))
+            # the unconditional alternative of the whole if/elif chain this test belongs to
+            last = node
+            while len(last.orelse) == 1 and isinstance(last.orelse[0], ast.If):
+                last = last.orelse[0]
+            rb, ro = recurses(node.body), recurses(last.orelse)
+            ok = rb or not ro
+            ctx.inst(rule, fid, 'if %s' % repo.norm(node.test)[:90], ok,
+                     'both outcomes treat the parts the same way (the strategy only picks a side)' if ok else
+                     'under a use-* strategy this test replaces the recursive merge of the parts by a single whole-value decision: the other side\'s NON-conflicting changes '
+                     'inside the value are dropped (and use-base drops both), which "merge, then resolve each conflict to X" never does', node)
+    ctx.inst(rule, MG, '%d strategy test(s) against use-* values in the generic mergers' % n, True, 'each judged above', None, nontrivial=False)
+
+
+# ------------------------------------------------------------------------------------------------ the merge returns what applying its decisions gives
+_SUMM = {}
+
+
+def _summaries(ctx):
+    key = ctx.repo.root if hasattr(ctx.repo, 'root') else id(ctx.repo)
+    if key not in _SUMM:
+        from ..aliasing import Summaries
+        from . import c13
+        _SUMM[key] = Summaries(ctx.repo, ctx.cg, lambda f: not f.startswith(('nbdime.webapp', 'nbdime.vcs', 'nbdime.profiling', 'nbdime.config', 'nbdime.args')),
+                               exempt=c13.EXEMPT, scalar_fields=c13.scalar_fields(ctx.repo),
+                               input_fields={'local_diff', 'remote_diff', 'valuelist', 'value', 'diff'})
+    return _SUMM[key]
+
+
+def _merged_is_applied_decisions(ctx, rule):
+    repo, cg = ctx.repo, ctx.cg
+    fid = 'nbdime.merging.notebooks:merge_notebooks'
+    fn = repo.func(fid)
+    ap = [st for st in walk_no_nested(fn) if isinstance(st, ast.Assign) and isinstance(st.value, ast.Call) and
+          any(t[0] == 'func' and t[1].endswith(':apply_decisions') for t in cg.resolve(st.value.func, fn)) and isinstance(st.targets[0], ast.Name)]
+    if len(ap) != 1:
+        raise AnalysisError('merge_notebooks: `merged = apply_decisions(base, decisions)` not found')
+    mvar = ap[0].targets[0].id
+    dvar = ap[0].value.args[1].id if len(ap[0].value.args) > 1 and isinstance(ap[0].value.args[1], ast.Name) else None
+    rets = [r for r in walk_no_nested(fn) if isinstance(r, ast.Return)]
+    ok_ret = bool(rets) and all(isinstance(r.value, ast.Tuple) and [dotted(e) for e in r.value.elts] == [mvar, dvar] for r in rets)
+    ctx.inst(rule, fid, 'return %s' % (repo.norm(rets[0].value) if rets else '?'), ok_ret,
+             'returns the applied result together with the decisions it was computed from' if ok_ret else
+             'the returned pair is not (apply_decisions(base, decisions), decisions)', rets[0] if rets else fn)
+    bad = []
+    for n in walk_no_nested(fn):
+        if getattr(n, 'lineno', 0) <= ap[0].lineno:
+            continue
+        if isinstance(n, (ast.Subscript, ast.Attribute)) and isinstance(n.ctx, (ast.Store, ast.Del)):
+            root = n
+            while isinstance(root, (ast.Subscript, ast.Attribute)):
+                root = root.value
+            if isinstance(root, ast.Name) and root.id in (mvar, dvar):
+                bad.append((n, 'store into %s' % root.id))
+        if isinstance(n, ast.Assign) and any(isinstance(t, ast.Name) and t.id in (mvar, dvar) for t in n.targets):
+            bad.append((n, 're-assignment of %s' % ast.unparse(n.targets[0])))
+        if isinstance(n, ast.Call):
+            args = [a for a in list(n.args) + [k.value for k in n.keywords] if isinstance(a, ast.Name) and a.id in (mvar, dvar)]
+            recv = isinstance(n.func, ast.Attribute) and isinstance(n.func.value, ast.Name) and n.func.value.id in (mvar, dvar)
+            if recv and n.func.attr not in ('get', 'keys', 'items', 'values', 'copy'):
+                bad.append((n, 'method %s.%s(...)' % (n.func.value.id, n.func.attr)))
+            if args:
+                ts = cg.resolve(n.func, fn)
+                pure = any(t[0] == 'func' and t[1].startswith('nbdime.prettyprint:') for t in ts) or (dotted(n.func) or '').startswith(('nbdime.log.', 'logger.', 'logging.', 'len', 'any', 'all'))
+                if not pure:
+                    # package callee: ask the alias/mutation summaries (same analysis as C13) whether it modifies that parameter
+                    S = _summaries(ctx)
+                    fts = [t[1] for t in ts if t[0] == 'func' and t[1] in repo.functions]
+                    verdicts = []
+                    for ft in fts:
+                        ps = [a.arg for a in repo.functions[ft].args.args]
+                        for i, a in enumerate(n.args):
+                            if a in args and i < len(ps):
+                                verdicts.append((ft, ps[i]) in S.mutates)
+                        for k in n.keywords:
+                            if k.value in args:
+                                verdicts.append((ft, k.arg) in S.mutates)
+                    if not fts or not verdicts or any(verdicts):
+                        bad.append((n, 'passed to %s%s' % (dotted(n.func) or ast.unparse(n.func), ', which modifies it' if fts and any(verdicts) else ' (effect unknown)')))
+    for n, what in bad:
+        ctx.inst(rule, fid, '%s: %s' % (what, repo.norm(n)[:80]), False,
+                 'the notebook is modified (or may be: the callee is not a renderer) after the decisions were applied: what merge_notebooks returns is no longer what the returned '
+                 'decisions produce -- identity/one-sided adoption fail for notebooks this post-processing touches, and use-X no longer equals "merge then resolve to X"', n)
+    if not bad:
+        ctx.inst(rule, fid, 'nothing touches %s/%s between apply_decisions and the return' % (mvar, dvar), True, 'only renderers and loggers see them', ap[0])
+
+
+extra('C09', 'R09.16', 'merge_notebooks returns exactly (apply_decisions(base, decisions), decisions): nothing modifies either between the application and the return', 2)(_merged_is_applied_decisions)
+extra('C05', 'R05.8', 'merge_notebooks returns exactly (apply_decisions(base, decisions), decisions): nothing modifies either between the application and the return', 2)(_merged_is_applied_decisions)
+extra('C10', 'R10.9', 'merge_notebooks returns exactly (apply_decisions(base, decisions), decisions): nothing modifies either between the application and the return', 2)(_merged_is_applied_decisions)
+
+
+# ------------------------------------------------------------------------------------------------ combine_patches always folds
+@extra('C03', 'R03.25', 'combine_patches hands back only the folded list (one patch per key, re-sorted): no path returns its input or anything not built by the fold -- '
+       'consumers unpack exactly one patch per key', 1)
+def combine_patches_always_folds(ctx, rule):
+    from ..util import local_defs, depends_on
+    repo = ctx.repo
+    fid = 'nbdime.merging.strategies:combine_patches'
+    fn = repo.func(fid)
+    param = fn.args.args[0].arg
+    defs = local_defs(fn)
+    built = {nm for nm, ds in defs.items() if any(k == 'mutate' and isinstance(st, ast.Call) and isinstance(st.func, ast.Attribute) and st.func.attr == 'append' for v, k, st in ds)}
+    if not built:
+        raise AnalysisError('combine_patches: the list built by the fold was not found')
+    k = 0
+    for r in walk_no_nested(fn):
+        if not isinstance(r, ast.Return):
+            continue
+        k += 1
+        names = {x.id for x in ast.walk(r.value) if isinstance(x, ast.Name)} if r.value is not None else set()
+        ok = bool(names & built) and param not in names
+        ctx.inst(rule, fid, repo.norm(r), ok, 'the folded list' if ok else
+                 'this path returns `%s` without folding: two patch entries on the same key stay separate, and resolve_strategy_inline_outputs (`e, = patches`) and the other consumers '
+                 'that expect one patch per key raise ValueError -- the merge aborts when both sides change two fields of one output' % ast.unparse(r.value)[:40], r)
+    if not k:
+        raise AnalysisError('combine_patches: no return found')
+
+
+# ------------------------------------------------------------------------------------------------ sided constants come in pairs
+@extra('C05', 'R05.9', 'a function that compares against a side-naming constant (local_then_remote, use-local, local, ...) also compares against its mirror image: '
+       'no behaviour is attached to one role only', 5)
+def sided_constants_balanced(ctx, rule):
+    from .. import mirror
+    repo = ctx.repo
+    n = 0
+    for fid, fn in sorted(repo.functions.items()):
+        if not fid.startswith(('nbdime.merging.', 'nbdime.prettyprint')):
+            continue
+        cs = {}
+        for x in walk_no_nested(fn):
+            if isinstance(x, ast.Compare):
+                for c in ast.walk(x):
+                    if isinstance(c, ast.Constant) and isinstance(c.value, str) and mirror.swap_const(c.value) != c.value:
+                        cs.setdefault(c.value, []).append(x)
+        if not cs:
+            continue
+        n += 1
+        lone = sorted(c for c in cs if mirror.swap_const(c) not in cs and c != 'union')
+        ctx.inst(rule, fid, 'side constants compared: %s' % sorted(cs), not lone,
+                 'each has its mirror image in the same function' if not lone else
+                 '%r is tested but %r never is: what this function does for one role it does not do for the other, so swapping local and remote changes the result '
+                 '(e.g. an item kept only when the inserting side happens to be called local)' % (lone[0], mirror.swap_const(lone[0])), cs[lone[0]][0] if lone else fn)
+
+
+# ------------------------------------------------------------------------------------------------ C07: both halves of a conflict are treated alike
+@extra('C07', 'R07.15', 'in the text-merge renderers and the inline source strategy, adjacent assignments to a local/remote pair are mirror images, and a bound shared by both '
+       'is not computed from one side only (else the longer half of a conflict loses lines)', 2)
+def c07_mirror_pairs(ctx, rule):
+    from . import c05
+    only = {f for f in ctx.repo.functions if f.startswith('nbdime.prettyprint:') and ('merge' in f or 'render' in f)} | \
+        {'nbdime.merging.strategies:resolve_strategy_inline_source', 'nbdime.merging.strategies:resolve_strategy_inline_recurse'}
+    c05.mirror_statement_pairs(ctx, rule, only=only)
